@@ -10,6 +10,10 @@ use crate::{
     storage::{FilterLinkStorage, KalmanStorageBase},
 };
 
+#[cfg(all(pendulum_project_ntpd_rs_verif, feature = "std"))]
+#[path = "/verif/hooks/statime_algo/filter_probe.rs"]
+mod verif_probe;
+
 #[derive(Debug, Clone)]
 enum LinkState {
     Tracked {
